@@ -83,3 +83,32 @@ package api
 //@   loop 1 invariant -1 <= rangeindex && rangeindex < len(fr.routes) || len(fr.routes) == 0
 //@   loop 1 iteration-ensures [route-bound-by-value] calls(ng.bindRoute) == 1 && arg(ng.bindRoute, 4) == at_head(fr.routes[rangeindex + 1]) && arg(ng.bindRoute, 5) == verifier && arg(ng.bindRoute, 2) == router && ret(bindRoute) == nil
 //@   ensures [verifier-error] ret(signatureVerifier, 1) != nil ==> result == ret(signatureVerifier, 1) && calls(bindRoute) == 0
+
+// bindRoutes: every group of routes is bound (with one shared metrics object); the first failure stops the start-up.
+//@ func (*engine).bindRoutes
+//@   prop C02, C03
+//@   opaque createMetrics, bindFeaturedRoutes
+//@   requires ng != nil
+//@   loop 1 invariant -1 <= rangeindex && calls(bindFeaturedRoutes) == rangeindex + 1 && rangeindex < len(ng.routes)
+//@   loop 1 iteration-ensures [group-bound-on-the-router] calls(ng.bindFeaturedRoutes) == 1 && arg(ng.bindFeaturedRoutes, 1) == router && arg(ng.bindFeaturedRoutes, 2) == at_head(ng.routes[rangeindex + 1]) && arg(ng.bindFeaturedRoutes, 3) == metrics && ret(bindFeaturedRoutes) == nil
+//@   ensures [every-group-bound] result == nil ==> calls(bindFeaturedRoutes) == len(ng.routes)
+//@   ensures [first-failure-stops] result != nil ==> result == ret(bindFeaturedRoutes, 0, last)
+// getShedder: priority routes use the priority shedder when there is one, everything else the ordinary one.
+//@ func (*engine).getShedder
+//@   prop C02
+//@   requires ng != nil
+//@   ensures [priority-shedder-for-priority-routes] result == ite(priority && ng.priorityShedder != nil, ng.priorityShedder, ng.shedder)
+// start: nothing is served unless every route bound; the router given is the one that serves.
+//@ func (*engine).start
+//@   prop C02, C03
+//@   opaque bindRoutes, StartHttp, StartHttps, withTimeout
+//@   requires ng != nil
+//@   ensures [routes-bound-first] calls(ng.bindRoutes, router) == 1 && (ret(bindRoutes) != nil ==> result == ret(bindRoutes) && calls(StartHttp) + calls(StartHttps) == 0)
+//@   ensures [serves-the-bound-router] ret(bindRoutes) == nil ==> calls(StartHttp) + calls(StartHttps) == 1 && (calls(internal.StartHttp) == 1 ==> arg(internal.StartHttp, 2) == router && result == ret(internal.StartHttp)) && (calls(internal.StartHttps) == 1 ==> arg(internal.StartHttps, 4) == router && result == ret(internal.StartHttps))
+//@   ensures [tls-only-with-key-material] ret(bindRoutes) == nil ==> (calls(internal.StartHttp) == 1) == (len(ng.config.CertFile) == 0 && len(ng.config.KeyFile) == 0)
+// notFoundHandler: whatever the inner handler does, the response carries 404 (written once).
+//@ func (*engine).notFoundHandler$1
+//@   prop C03
+//@   opaque New, Then, TracingHandler, getLogHandler, NotFoundHandler, NewHeaderOnceResponseWriter, WriteHeader
+//@   ensures [custom-handler-else-the-default] calls(Then) == 1 && (next != nil ==> arg(Then, 0) == next && calls(http.NotFoundHandler) == 0) && (next == nil ==> arg(Then, 0) == ret(http.NotFoundHandler))
+//@   ensures [served-through-the-once-writer-then-404] calls(ServeHTTP) == 1 && calls(WriteHeader) == 1 && calls(cw.WriteHeader, 404) == 1 && cw == ret(response.NewHeaderOnceResponseWriter) && before(ServeHTTP, WriteHeader) && arg(response.NewHeaderOnceResponseWriter, 0) == w && arg(ServeHTTP, 0) == cw && arg(ServeHTTP, 1) == r
